@@ -8,7 +8,7 @@ from numbers_parser.constants import DurationStyle, DurationUnits
 from pysym.api import BoolDom, Cases, Harness, IntDom, StrDom, assume, concretize, cover
 
 NUMERIC = ["HH", "H", "hh", "h", "k", "kk", "K", "KK", "mm", "m", "ss", "s", "d", "dd", "M", "MM", "yyyy", "yy", "y",
-           "DDD", "DD", "D", "S", "SS", "SSS", "SSSS", "SSSSS", "a"]
+           "DDD", "DD", "D", "S", "SS", "SSS", "SSSS", "SSSSS", "a", "F"]
 TIME_ONLY = ["HH", "H", "hh", "h", "k", "kk", "K", "KK", "mm", "m", "ss", "s", "S", "SS", "SSS", "SSSS", "SSSSS", "a"]
 DIM = [31, 28, 31, 30, 31, 30, 31, 31, 30, 31, 30, 31]
 
@@ -37,7 +37,8 @@ def h14a_directive(field, year, month, day, hour, minute, second, micro):
     want = {"HH": hour, "H": hour, "hh": 12 if h12 == 0 else h12, "h": 12 if h12 == 0 else h12,
             "k": 24 if hour == 0 else hour, "kk": 24 if hour == 0 else hour, "K": h12, "KK": h12,
             "mm": minute, "m": minute, "ss": second, "s": second, "d": day, "dd": day, "M": month, "MM": month,
-            "yyyy": year, "yy": year % 100, "DDD": yday, "DD": yday, "D": yday}
+            "yyyy": year, "yy": year % 100, "DDD": yday, "DD": yday, "D": yday,
+            "F": (day - 1) // 7 + 1}        # how many times this weekday has occurred in the month so far
     width = {"HH": 2, "hh": 2, "kk": 2, "KK": 2, "mm": 2, "ss": 2, "dd": 2, "MM": 2, "yy": 2, "yyyy": 4, "DDD": 3, "DD": 2}
     if field in want:
         assert n == want[field]
@@ -182,7 +183,7 @@ HARNESSES = [
             dict(field=Cases(NUMERIC), year=IntDom(), month=IntDom(), day=IntDom(), hour=IntDom(), minute=IntDom(), second=IntDom(),
                  micro=IntDom()),
             bounds="clock directives x all hours, minutes, seconds, microseconds; calendar directives x all years 1000..9999, months, days 1..28 (symbolic)",
-            outside=["days 29..31 (month-length validity is datetime's)", "weekday/month names, W, ww, F, G", "locale",
+            outside=["days 29..31 (month-length validity is datetime's)", "weekday/month names, W, ww, G", "locale",
                      "years < 1000 (platform-dependent %Y padding)"],
             stubs=["datetime model: exact integer calendar arithmetic; strftime per the C standard in the C locale"]),
     _scan(0), _scan(1), _scan(2), _scan(3), _scan(4),
